@@ -46,8 +46,13 @@ class ExprBuilder:
         return ("kx", _freeze(k))
 
     def place(self, p):
-        base = self.local(pl_local(p))
+        l = pl_local(p)
         elems = [e for e in pl_proj(p) if e != "*"]
+        if l == 1 and self.body.fn.kind == "closure" and elems and elems[0][1:].isdigit():
+            idx = int(elems[0][1:])
+            base = ("upvar", idx, self.body.upvars.get(idx, "upvar%d" % idx))
+            return mkproj(base, elems[1:], self)
+        base = self.local(l)
         return mkproj(base, elems, self)
 
     def local(self, l):
@@ -60,7 +65,10 @@ class ExprBuilder:
             return node
         wd = body.whole_defs(l)
         alld = body.defs().get(l, [])
-        if len(wd) != 1 or len(alld) != 1 or l in self.active:
+        named_mut = body.locals[l]["mut"] and l in body.names
+        if named_mut and len(wd) == 1 and len(alld) == 1 and wd[0][0] == "st" and any("`for` loop" in m for m in (wd[0][3].get("mb") or [])):
+            named_mut = False   # the hidden iterator variable of a `for` loop
+        if len(wd) != 1 or len(alld) != 1 or l in self.active or named_mut:
             node = ("var", l, body.names.get(l, "_%d" % l))
             self.memo[l] = node
             return node
@@ -148,6 +156,10 @@ def leaf_name(n):
         return n[2]
     if k == "var":
         return n[2]
+    if k == "elem":
+        return n[1] + "[]"
+    if k == "named":
+        return n[1]
     if k == "proj":
         b = leaf_name(n[1])
         if b is None:
@@ -191,6 +203,10 @@ def show(n, depth=0):
         return repr(n[1])
     if k in ("arg", "upvar", "var"):
         return n[2]
+    if k == "elem":
+        return n[1] + "[]"
+    if k == "named":
+        return n[1]
     if k == "proj":
         return show(n[1], depth + 1) + "".join(n[2])
     if k == "bin":
